@@ -45,8 +45,7 @@ Section TreeInd.
     end.
 End TreeInd.
 
-Fixpoint tsize (t : tree) : nat := match t with T _ _ _ k => S (list_sum (map tsize k)) end.
-Definition fsize (f : forest) : nat := list_sum (map tsize f).
+(* [tsize], [fsize]: number of nodes (NodeSpec.v) *)
 
 Lemma fsize_cons t r : fsize (t :: r) = tsize t + fsize r.
 Proof. reflexivity. Qed.
